@@ -9,6 +9,7 @@ every capacity and schedule (Emit/Unfold: `Golem.Go.Sources`, cited when built).
 import Golem.Lemmas.StageErr
 import Golem.Props.C05
 import Golem.Props.C06
+import Golem.Props.C11
 namespace Golem.Props.C07
 open Golem.Go Golem.Go.Stage Golem.Go.Pool Golem.Model Golem.Lemmas Golem.Lemmas.StageErr
 
@@ -86,6 +87,30 @@ theorem try_closes (f : α → Except ε β) (inCap : Nat) (outCap : Nat → Nat
   have := C05.pipe_closes (mapS .try_ f) () inCap outCap [1, 0] (by decide) hr hcl hq hd
     (C06.sel_never_blockedPlain _ (C06.map_try_sel f) (by intro s; rfl) hI 0)
   exact ⟨this.1, this.2 0 (by simp), this.2 1 (by simp), hI.noPanic⟩
+
+/-! ### Emit / Unfold under Lift and Try (`Golem.Go.Sources`) -/
+section Sources
+open Golem.Go.Sources
+variable {β' ε' : Type}
+
+theorem emit_lift_first_failure (P : Fn β' ε') (hm : P.mode = .lift) (cap : Nat) {p : Src β' ε'}
+    (hr : Golem.Go.Sources.Reachable P (initEmit P.mode cap) p) (j : Nat) (hj : j < p.iters) (e : ε') (hje : P.emitF j = .error e) :
+    (∀ i, i < j → ∃ v, P.emitF i = .ok v) ∧ p.iters = j + 1 ∧ p.pc.inLoop = false ∧
+    p.delivered.map (·.1) ++ p.out.buf = okVals P j ∧ p.errsDelivered.map (·.1) ++ p.exx.buf = [e] ∧
+    p.callsE.map (·.1) = List.range (j + 1) := Golem.Props.C11.emit_lift_first_failure P hm cap hr j hj e hje
+
+theorem emit_try_partition (P : Fn β' ε') (cap : Nat) {p : Src β' ε'}
+    (hr : Golem.Go.Sources.Reachable P (initEmit P.mode cap) p) :
+    p.delivered.map (·.1) ++ p.out.buf = okVals P p.iters ∧
+    p.errsDelivered.map (·.1) ++ p.exx.buf = errVals P p.iters := Golem.Props.C11.emit_try_partition P cap hr
+
+theorem unfold_lift_first_failure (P : Fn β' ε') (hm : P.mode = .lift) (cap : Nat) (seed : β') {p : Src β' ε'}
+    (hr : Golem.Go.Sources.Reachable P (initUnfold P.mode cap seed) p) (k : Nat) (hk : k < p.iters) (e : ε')
+    (hke : (P.unfoldF (seedAt P seed k)).2 = some e) :
+    (∀ i, i < k → (P.unfoldF (seedAt P seed i)).2 = none) ∧ p.iters = k + 1 ∧ p.pc.inLoop = false ∧
+    p.delivered.map (·.1) ++ p.out.buf = iterates P seed (k + 1) ∧ p.errsDelivered.map (·.1) ++ p.exx.buf = [e] ∧
+    p.callsU.map (·.1) = iterates P seed (k + 1) := Golem.Props.C11.unfold_lift_first_failure P hm cap seed hr k hk e hke
+end Sources
 
 /-! non-vacuity: a concrete failing pattern -/
 example : onCh 1 ((mapS .lift (fun (n : Nat) => if n % 2 = 0 then Except.ok n else Except.error s!"odd {n}")).run () [2, 4, 5, 6, 7]).ems
